@@ -20,7 +20,7 @@ def reset():
 
 # name -> ({check: expected to report}, [(file, old, new)])
 MUT = {
-    'G1_hidden_query_not_canonical': ({'C05': True, 'C06': False, 'C09': True}, [(GRID, """                Size::NONE,
+    'G1_hidden_query_not_canonical': ({'C05': True, 'C06': True, 'C09': True}, [(GRID, """                Size::NONE,
                 Size::NONE,
                 Size::MAX_CONTENT,
                 SizingMode::InherentSize,
@@ -45,7 +45,7 @@ MUT = {
     'G4_top_margin_resolved_against_zero': ({'C05': False, 'C06': False, 'C09': True}, [(GI, """            top: self.margin.top.resolve_or_zero(inner_node_width, |val, basis| tree.calc(val, basis))
                 + self.baseline_shim,""", """            top: self.margin.top.resolve_or_zero(Some(0.0), |val, basis| tree.calc(val, basis))
                 + self.baseline_shim,""")]),
-    'G5_order_not_advanced_for_absolute_children': ({'C05': False, 'C06': True, 'C09': True}, [(GRID, """                item_content_size_contribution = item_content_size_contribution.f32_max(content_size_contribution);
+    'G5_order_not_advanced_for_absolute_children': ({'C05': True, 'C06': True, 'C09': True}, [(GRID, """                item_content_size_contribution = item_content_size_contribution.f32_max(content_size_contribution);
             }
 
             order += 1;
